@@ -25,6 +25,10 @@ PROPS = {
             fsm('stimuli', 450, 30000, faults=False),
             fsm('submissions', 400, 30000, faults=False, events=12, mix=SUBMIT_MIX),
             fsm('stimuli-faults', 250, 20000, faults=True, net=True),
+            # biased to another rare alignment: git fails after the compliance process was spawned, the orphaned process ends during a later (re)load
+            fsm('orphaned-compliance-process', 250, 20000, faults=False, events=14, mix=dict(SUBMIT_MIX, reset=3), priorities=['now', 'now', 'crew_idle'],
+                endpoints=['/api/rev/submit', '/api/rev/submit', '/app/submit'], git_fail=(1, 2), git_fail_at=[4, 5], proc_delays=[5.0, 12.0, 40.0, 100.0],
+                outcome=dict(success=8, failure=1, invalid=1)),
             # biased to the rare alignment: an immediate (now) submission whose compliance process ends while the reload it caused is archiving new data
             fsm('submit-now-while-archiving', 300, 20000, faults=False, events=12, mix=SUBMIT_MIX, priorities=['now', 'now', 'crew_idle', 'todo_empty'],
                 proc_delays=[0.0, 0.0, 0.1, 1.0], outcome=dict(success=8, failure=1, invalid=1)),
